@@ -62,8 +62,11 @@ impl InferShapes for Slice {
                     && let Some(SymExpr::Value(step)) = step
                     && let SymExpr::Value(size) = dims[axis]
                 {
+                    // `i32::MAX` means the slice has no end when stepping
+                    // forwards. When stepping backwards it is clamped to the
+                    // last element like other out-of-range ends.
                     let end = match *end {
-                        i32::MAX => None,
+                        i32::MAX if *step > 0 => None,
                         end => Some(end as isize),
                     };
 
